@@ -183,6 +183,9 @@ func recursivePackages(thorough bool) []*pkgSpec {
 	p = &pkgSpec{Name: "rectrue/foreign-and-generic"}
 	p.addType("Wrap", auxDecl["Wrap"])
 	p.addTyped("rectrue", "foreign-struct", typeSpec{name: "R9", decl: "type R9 struct {\n\ta tp.Inner\n\tb int\n}", tcs: all, kinds: []string{"nested-foreign-struct"}}, all, recTrue)
+	p.addType("Tagged", "type Tagged[T, P any] struct {\n\tV []T\n}")
+	p.addTyped("rectrue", "nested-generic-with-unused-parameter", typeSpec{name: "R11", decl: "type R11 struct {\n\tn int\n\tt Tagged[int, string]\n}", tcs: all, kinds: []string{"nested-generic-struct"}}, all, recTrue)
+	p.addTyped("rectrue", "slice-of-nested-generic-with-unused-parameter", typeSpec{name: "R12", decl: "type R12 struct {\n\tt []Tagged[string, int]\n}", tcs: all, kinds: []string{"nested-generic-struct"}}, all, recTrue)
 	p.addTyped("rectrue", "nested-generic", typeSpec{name: "R10", decl: "type R10 struct {\n\ta Wrap[int]\n\tb string\n}", tcs: all, kinds: []string{"nested-generic-struct"}}, all, recTrue)
 	out = append(out, p)
 
@@ -356,7 +359,57 @@ func namedPackages(thorough bool) []*pkgSpec {
 	f2 := &pkgSpec{Name: "foreign/field"}
 	f2.addTyped("foreign", "pub", typeSpec{name: "tp.Pub", tcs: all}, all, func(t *target) { t.NoLaw = true; t.ID = strings.Replace(t.ID, "/foreign/", "/aux/", 1) })
 	f2.addTyped("foreign", "field-of-foreign-struct", typeSpec{name: "UsePub", decl: "type UsePub struct {\n\tn int\n\tp tp.Pub\n}", tcs: all, deps: []string{"TpPub"}}, all, fm)
-	return []*pkgSpec{p, p2, p3, f, f2}
+	// derive targets declared OUTSIDE the working package whose fields have types of the same
+	// foreign package, which declares its own, recognisably different instances for them: the
+	// package of the (field) type comes before the derive package, also when the instance being
+	// generated is for a foreign type (explicit directive, or pulled in by recursive=true)
+	var own []*pkgSpec
+	for _, v := range []struct {
+		label, sem string
+		work, rec  bool
+	}{{"type-package", "P", false, false}, {"both", "W", true, false}, {"type-package,recursive=true", "P", false, true}} {
+		q := &pkgSpec{Name: "foreign/own-instances-" + v.label}
+		for tc := Eq; tc < nTC; tc++ {
+			q.TpExtra += markerDecl(tc, tcs[tc].Name+"Name", "Name", "P", tc%2 == 1)
+			if v.work {
+				q.WExtra += markerDecl(tc, tcs[tc].Name+"TpName", "tp.Name", "W", false)
+			}
+		}
+		mod := func(t *target) {
+			fm(t)
+			t.Opt = overOpt(tpNameKey, v.sem)
+			t.RecTrue = v.rec
+			t.Counts = append(t.Counts, "placement/foreign-target/"+v.label)
+		}
+		if v.rec {
+			// not Eq: tp.Acct is comparable, so eq.Given[tp.Acct] (Go's ==) is the instance the
+			// precedence selects for the field, with and without recursive=true; nothing is derived
+			// for Acct and tp.EqName is legitimately not consulted
+			noEq := only(Ord, Hashable, Monoid, Clone, Show)
+			q.addTyped("foreign", "own-instances/"+v.label+"/card(acct-inside)", typeSpec{name: "Card", decl: "type Card struct {\n\tn int\n\ta tp.Acct\n}", tcs: noEq}, all, mod)
+			q.addTyped("foreign", "own-instances/"+v.label+"/cards(slice-of-acct)", typeSpec{name: "Cards", decl: "type Cards struct {\n\ta []tp.Acct\n}", tcs: noEq}, all, mod)
+		} else {
+			q.addTyped("foreign", "own-instances/"+v.label+"/acct", typeSpec{name: "tp.Acct", tcs: all}, all, mod)
+		}
+		own = append(own, q)
+	}
+	// a generic type of another package whose own package declares an instance FUNCTION for it
+	g := &pkgSpec{Name: "foreign/generic-own-instance"}
+	g.TpExtra = `// EqBox looks at V only
+func EqBox[T any](e fp.Eq[T]) fp.Eq[Box[T]] {
+	return eq.New(func(a, b Box[T]) bool { return e.Eqv(a.V, b.V) })
+}
+
+`
+	gm := func(t *target) {
+		fm(t)
+		t.Opt = overOpt("scratchmod/tp.Box", "F1")
+		t.Counts = append(t.Counts, "placement/type-package(generic instance function)")
+	}
+	g.addTyped("foreign", "generic-own-instance/box[int]+str", typeSpec{name: "UB", decl: "type UB struct {\n\tb tp.Box[int]\n\ts string\n}", tcs: only(Eq)}, all, gm)
+	g.addTyped("foreign", "generic-own-instance/seq-of-box[string]", typeSpec{name: "UB2", decl: "type UB2 struct {\n\tb []tp.Box[string]\n}", tcs: only(Eq)}, all, gm)
+	own = append(own, g)
+	return append([]*pkgSpec{p, p2, p3, f, f2}, own...)
 }
 
 // ---------------------------------------------------------------- documented precedence
@@ -751,6 +804,65 @@ func rejectedPackage() *pkgSpec {
 	return p
 }
 
+// ---------------------------------------------------------------- field kind error
+
+// errorPackage: the predeclared type error has no instance in any derive package; gombok
+// refers to a local instance (EqError ...), which the working package supplies here.
+func errorPackage() *pkgSpec {
+	p := &pkgSpec{Name: "plain-error/01"}
+	p.WExtra = `func errMsg(e error) string {
+	if e == nil {
+		return ""
+	}
+	return "!" + e.Error()
+}
+
+var EqError fp.Eq[error] = eq.New(func(a, b error) bool { return errMsg(a) == errMsg(b) })
+
+var OrdError fp.Ord[error] = ord.FromCompare(func(a, b error) int { return strings.Compare(errMsg(a), errMsg(b)) })
+
+var HashableError fp.Hashable[error] = hash.New(EqError, func(a error) uint32 { return hash.String.Hash(errMsg(a)) })
+
+// the first error wins
+var MonoidError fp.Monoid[error] = monoid.New(func() error { return nil }, func(a, b error) error {
+	if a != nil {
+		return a
+	}
+	return b
+})
+
+var CloneError fp.Clone[error] = clone.New(func(a error) error { return a })
+
+var ShowError fp.Show[error] = show.New(func(a error) string { return "<" + errMsg(a) + ">" })
+
+`
+	mark := func(t *target) { t.Counts = append(t.Counts, "field-kind/error") }
+	for _, sh := range []struct{ label, name, decl string }{
+		{"error", "E1", "type E1 struct {\n\terr error\n}"},
+		{"int+error+str", "E2", "type E2 struct {\n\tn   int\n\terr error\n\ts   string\n}"},
+		{"opt[error]+int", "E3", "type E3 struct {\n\te fp.Option[error]\n\tn int\n}"},
+		{"seq[error]", "E4", "type E4 struct {\n\tes fp.Seq[error]\n}"},
+		{"pub:error+ints", "E5", "type E5 struct {\n\tErr error\n\tL   []int\n}"},
+	} {
+		p.addTyped("plain", "error-kind/"+sh.label, typeSpec{name: sh.name, decl: sh.decl, tcs: allTC()}, allTC(), mark)
+	}
+	return p
+}
+
+// bytesPackage: []byte fields (eq and hash have Bytes instances, the other packages use Slice).
+func bytesPackage() *pkgSpec {
+	p := &pkgSpec{Name: "plain-bytes/01"}
+	mark := func(t *target) { t.Counts = append(t.Counts, "field-kind/bytes") }
+	for _, sh := range []struct{ label, name, decl string }{
+		{"int+bytes", "Y1", "type Y1 struct {\n\tn int\n\tb []byte\n}"},
+		{"bytes+str", "Y2", "type Y2 struct {\n\tb []byte\n\ts string\n}"},
+		{"opt[bytes]+seq[bytes]", "Y3", "type Y3 struct {\n\to fp.Option[[]byte]\n\tl fp.Seq[[]byte]\n}"},
+	} {
+		p.addTyped("plain", "bytes-kind/"+sh.label, typeSpec{name: sh.name, decl: sh.decl, tcs: allTC()}, allTC(), mark)
+	}
+	return p
+}
+
 // ---------------------------------------------------------------- directive sequences
 
 // seqPackages: several derive directives of one typeclass in one package (one gombok run)
@@ -845,6 +957,8 @@ func allPackages(thorough bool) []*pkgSpec {
 	out = append(out, givenPackages(thorough)...)
 	out = append(out, rejectedPackage())
 	out = append(out, seqPackages(thorough)...)
+	out = append(out, errorPackage())
+	out = append(out, bytesPackage())
 	if thorough {
 		out = append(out, customPackages(thorough)...)
 	}
